@@ -2,6 +2,7 @@
 import json
 import os
 import random
+import threading
 import time
 
 import sqwcorr as S
@@ -11,7 +12,7 @@ ID = 'C13'
 LEVEL = 'proof'
 TRANSLATE = None
 GEN_FILES = ['GenSqw.v', 'GenSqwUnits.v']
-RUN_FILES = ['Tie.v', 'Properties.v']
+RUN_FILES = ['CheckC13.v', 'Tie.v', 'Properties.v']
 COQ_TIMEOUT = 600
 TRUSTED = [
     'coq/SQW/Model.v: hand-written executable model of the writer (see C12; validated byte for byte by C12 on every run)',
@@ -74,11 +75,38 @@ def gen_cases(rng, tier):
                 calls.append(S.gen_call(rng, k))
         chunk = rng.choice(S.chunk_grid(max(n, 1)) + [None])
         tags = ['random'] + (['en2d'] if i % 10 == 9 else [])
+        # every third file: the supplied data array carries masks / coordinates that are not rows
+        for cl in calls:
+            if cl['kind'] == 'pix' and i % 3 == 1:
+                S.add_pix_extras(rng, cl, mode='random' if i % 2 else ('extreme', rng.choice(S.ROW_ORDER), rng.choice(['min', 'max', 'both'])))
+                tags.append('pix-extras')
         cases.append(S.mk_case(rng, calls, byteorder=bos[i % 3], sink='file' if i % 4 == 0 else 'bytesio', chunk=chunk, tags=tags))
     # boundary values for the binary32 rounding and the units, all rows
     for n, chunk in ((64, 7), (257, 64), (3000, None)) + (((20000, 8192), (100000, None)) if tier == 'thorough' else ()):
         cases.append(S.mk_case(rng, [S.gen_pix_call(rng, n, n_runs=2, convert=True), S.gen_samp_call(rng), S.gen_inst_call(rng),
                                      S.gen_dnd_call(rng)], chunk=chunk, tags=['values']))
+    # masks flagging exactly the pixels that hold the minimum / maximum of each of the nine rows (signal, variance, every
+    # coordinate row), converted and unconverted units, N = 1 (everything masked) .. 200; extra coordinates only
+    k = 0
+    for row in S.ROW_ORDER:
+        for which in ('min', 'max'):
+            k += 1
+            if tier == 'quick' and row in ('irun', 'idet', 'ien') and which == 'min' and k % 2:
+                continue
+            n = rng.choice([1, 2, 3, 9, 10, 65, 200])
+            pc = S.gen_pix_call(rng, n, n_runs=1, convert=rng.random() < 0.5, f32_signal=rng.random() < 0.1)
+            S.add_pix_extras(rng, pc, mode=('extreme', row, which))
+            cases.append(S.mk_case(rng, [pc], sink='bytesio' if k % 3 else 'file', chunk=rng.choice([None, 1, n, 8]),
+                                   tags=['masked-extreme', f'masked-extreme:{row}:{which}']))
+    for n in (0, 5):
+        pc = S.add_pix_extras(rng, S.gen_pix_call(rng, n, n_runs=1), mode='random')
+        cases.append(S.mk_case(rng, [pc, S.gen_dnd_call(rng)], tags=['pix-extras', 'masked-random']))
+    cases.append(S.mk_case(rng, [S.add_pix_extras(rng, S.gen_pix_call(rng, 7, n_runs=2), mode='coords')], tags=['pix-extras', 'extra-coords']))
+    # one array write above 1 MiB per sink (a single chunk of > 29127 pixels x 9 float32): block-wise copying paths
+    for sink in ('bytesio', 'file'):
+        n = rng.randrange(29500, 33000)
+        cases.append(S.mk_case(rng, [S.gen_pix_call(rng, n, convert=False, n_runs=1)], sink=sink,
+                               chunk=rng.choice([n, n + 1, 65536, 100000]), tags=['values', 'single-write-above-1MiB']))
     # empty strings / long strings
     for L in (0, 1, 255, 256, 70000):
         pc = S.gen_pix_call(rng, 5, n_runs=2)
@@ -111,7 +139,7 @@ def correspondence(ctx):
                           f'SqwBuilder raised {r["error"]["type"]}: {r["error"]["msg"]} on {S.describe(c)}',
                           {'case': c, 'error': r['error']})
             continue
-        term = S.case_term(c, r)
+        term = S.case_term(c, r, share=True)
         values += sum(9 * cl['npix'] for cl in c['calls'] if cl['kind'] == 'pix')
         if r['size'] > 40000:
             big.append(term)
@@ -119,16 +147,29 @@ def correspondence(ctx):
         else:
             small.append(term)
             small_idx.append(c['id'])
-    footer = lambda k: 'Eval vm_compute in (report (map check_c13 cases)).\n'  # noqa: E731
+    footer = lambda k: 'Eval vm_compute in (report (map check_c13f cases)).\n'  # noqa: E731
+    header = S.HEADER + 'From Run Require Import CheckC13.\n'
     fails, errors = {}, []
+    # the large files (one Coq process each, the > 1 MiB ones take longest) are evaluated alongside the small shards
+    big_out = {}
+
+    def eval_big():
+        big_out['r'] = ctx.coq_eval_shards(header, big, footer, shard=1, prefix='bigcases')
+    th = threading.Thread(target=eval_big) if big else None
+    if th:
+        th.start()
     if small:
-        f1, e1 = ctx.coq_eval_shards(S.HEADER, small, footer, shard=12, prefix='cases')
+        f1, e1 = ctx.coq_eval_shards(header, small, footer, shard=12, prefix='cases')
         fails.update({small_idx[i]: why for i, why in f1.items()})
         errors += e1
-    if big:
-        f2, e2 = ctx.coq_eval_shards(S.HEADER, big, footer, shard=1, prefix='bigcases')
-        fails.update({big_idx[i]: why for i, why in f2.items()})
-        errors += e2
+    if th:
+        th.join()
+        if 'r' not in big_out:
+            errors.append(('bigcases', 'evaluation thread died'))
+        else:
+            f2, e2 = big_out['r']
+            fails.update({big_idx[i]: why for i, why in f2.items()})
+            errors += e2
     for name, e in errors:
         ctx.violation('corr-shard-error', f'correspondence shard {name} did not evaluate: {e[:300]}',
                       {'shard': name, 'error': e}, found_input=False)
